@@ -9,7 +9,7 @@ from typing import Dict, List, Optional, Set, Tuple
 
 from oqv.astutil import branch_context, call_name, method_call
 from oqv.cfg import CFG
-from oqv.dataflow import DefUse
+from oqv.dataflow import DefUse, expand
 from oqv.model import AnalysisError, Program, Unit, dotted, norm, walk_local
 from oqv.report import Check
 
@@ -380,30 +380,47 @@ def i5_i6(prog: Program, chk: Check) -> None:
              "even with dt/2), and PT-TEBD applies two half-step propagators per step", floor=3)
     u = prog.unit("system:SystemChain.get_nn_full_liouvillians")
     chk.saw(u)
+    du5 = DefUse(u, CFG(u.node, exc_edges=False))
+    loops = [x for x in walk_local(u.node) if isinstance(x, ast.For)
+             and isinstance(x.target, ast.Name)
+             and norm(x.iter).replace(" ", "") == "range(len(self)-1)"]
+    if len(loops) != 1:
+        raise AnalysisError("I5: the loop over the bonds (range(len(self)-1)) was not found")
+    iv = loops[0].target.id
+    # weighted single-site terms: <weight> * kron(<site Liouvillian or identity>, ...)
     fl = fr = None
-    for st in walk_local(u.node):
-        if isinstance(st, ast.Assign) and dotted(st.targets[0]) == "factor_l":
-            fl = st.value
-        if isinstance(st, ast.Assign) and dotted(st.targets[0]) == "factor_r":
-            fr = st.value
-    terms = [x for x in walk_local(u.node) if isinstance(x, ast.BinOp) and isinstance(x.op, ast.Mult)
-             and dotted(x.left) in ("factor_l", "factor_r")]
-    uses = {dotted(t.left): norm(t.right) for t in terms}
-    shape_ok = fl is not None and fr is not None and \
-        "liouv_l" in uses.get("factor_l", "") and "liouv_r" in uses.get("factor_r", "")
+    found = {}
+    for x in ast.walk(loops[0]):
+        if not (isinstance(x, ast.BinOp) and isinstance(x.op, ast.Mult)):
+            continue
+        for w, k in ((x.left, x.right), (x.right, x.left)):
+            if not (isinstance(k, ast.Call) and (dotted(k.func) or "").split(".")[-1] == "kron"
+                    and len(k.args) == 2):
+                continue
+            nid = du5.node_of(x)
+            a0, a1 = expand(du5, nid, k.args[0]), expand(du5, nid, k.args[1])
+            for pos, a in ((0, a0), (1, a1)):
+                if isinstance(a, ast.Subscript) and dotted(a.value) == "self._site_liouvillians":
+                    off = norm(a.slice).replace(" ", "")
+                    side = "l" if (pos == 0 and off == iv) else \
+                        ("r" if (pos == 1 and off == f"{iv}+1") else None)
+                    if side:
+                        found[side] = expand(du5, nid, w)
+    fl, fr = found.get("l"), found.get("r")
+    shape_ok = fl is not None and fr is not None
     bad = []
     if shape_ok:
         for n in range(2, 8):
             for site in range(n):
                 w = 0.0
                 if site <= n - 2:
-                    w += _eval_small(fl, {"i": site, "n": n})
+                    w += _eval_small(fl, {iv: site, "n": n})
                 if site >= 1:
-                    w += _eval_small(fr, {"i": site - 1, "n": n})
+                    w += _eval_small(fr, {iv: site - 1, "n": n})
                 if abs(w - 1.0) > 1e-12:
                     bad.append((n, site, w))
-    chk.add("I5", u, f"factor_l = {norm(fl) if fl is not None else '?'}; "
-            f"factor_r = {norm(fr) if fr is not None else '?'}", shape_ok and not bad,
+    chk.add("I5", u, f"weight of site i on bond i: {norm(fl) if fl is not None else '?'}; "
+            f"of site i+1: {norm(fr) if fr is not None else '?'}", shape_ok and not bad,
             "weights sum to 1 for chain lengths 2..7" if shape_ok and not bad else
             f"site weights differ from 1 (chain length, site, weight): {bad[:4]}")
     # I6
